@@ -124,9 +124,9 @@ class Load(Suite):
     name = "main"
     go_cmd = "c40"
     coq_imports = "From GoGit Require Import Model.GoPath Model.Loader."
-    quick_n = 500
-    thorough_n = 6000
-    coq_chunk = 100
+    quick_n = 260
+    thorough_n = 2500
+    coq_chunk = 45
     _T = None
 
     @property
@@ -246,8 +246,9 @@ class Paths(Suite):
     name = "paths"
     go_cmd = "c40"
     coq_imports = "From GoGit Require Import Model.GoPath Model.Loader."
-    quick_n = 400
-    thorough_n = 6000
+    quick_n = 200
+    thorough_n = 3000
+    coq_chunk = 100
     impl_env = {"C40_T": "/nonexistent/vc40"}
 
     PIECES = ["a", "b", ".", "..", "", "...", "..a", "a.", ".git", "x y", "R", "tmp"]
